@@ -21,7 +21,11 @@ func narrowingFn(c *core.Ctx, ps []*procInfo) (*ssa.Function, *ssa.Call, *procIn
 	prop := c.Named("component_definition", "Property")
 	meta := c.Named("component_definition", "Meta")
 	for _, p := range withRole(ps, "further", true) {
-		for _, ci := range core.Calls(p.Props) {
+		var sites []ssa.CallInstruction
+		for _, f := range p.Body { // the method first, then the helpers it is split into
+			sites = append(sites, core.Calls(f)...)
+		}
+		for _, ci := range sites {
 			call, ok := ci.(*ssa.Call)
 			if !ok {
 				continue
